@@ -147,7 +147,8 @@ V('C20-silent-rename-local', 'C20', SJ, "    sindex = left_df.geometry.sindex", 
 
 # ------------------------------------------------------------------------------------------------ C06
 V('C06-area-maps-length', 'C06', D, "        return self.map_partitions(lambda s: s.area)", "        return self.map_partitions(lambda s: s.length)", rule='C06.a')
-V('C06-total-bounds-nan-propagating', ['C06', 'C13'], D, "            np.nanmin(partition_bounds['x0']),", "            np.min(partition_bounds['x0']),", rule=None, rules={'C06': 'C06.b', 'C13': 'C13.d'})
+V('C06-total-bounds-nan-propagating', ['C06', 'C13'], D, "            np.nanmin(partition_bounds['x0']),", "            np.min(partition_bounds['x0'].values),", rule=None, rules={'C06': 'C06.b', 'C13': 'C13.d'})
+V('C06-silent-pandas-min', ['C06'], D, "            np.nanmin(partition_bounds['x0']),", "            partition_bounds['x0'].min(),", expect='silent')  # pandas reductions skip NaN
 V('C06-total-bounds-wrong-column', ['C06', 'C13'], D, "            np.nanmax(partition_bounds['x1']),", "            np.nanmax(partition_bounds['x0']),", rule=None, rules={'C06': 'C06.b', 'C13': 'C13.d'})
 V('C06-total-bounds-vectorised', ['C06'], D, "        return (\n            np.nanmin(partition_bounds['x0']),\n            np.nanmin(partition_bounds['y0']),\n            np.nanmax(partition_bounds['x1']),\n            np.nanmax(partition_bounds['y1']),\n        )",
   "        values = partition_bounds.to_numpy()\n        return (*values[:, :2].min(axis=0), *values[:, 2:].max(axis=0))", rule='C06.b')
@@ -198,3 +199,33 @@ V('C05-right-chain-inner', 'C05', SJ, "                    right_df, left_on=\"_
 V('C05-right-keeps-left-geometry', 'C05', SJ, "            left_df.drop(\n                left_df.geometry.name, axis=1\n            ).merge(\n                result.merge(", "            left_df.merge(\n                result.merge(", rule='C05.c')
 V('C05-index-restore-wrong-side', 'C05', SJ, "            ).set_index(\n                index_right\n            )", "            ).set_index(\n                index_left\n            )", rule='C05.c')
 V('C05-silent-left-then-inner', 'C05', SJ, "            left_df.merge(\n                result, left_index=True, right_index=True\n            ).merge(", "            left_df.merge(\n                result, left_index=True, right_index=True, how=\"right\"\n            ).merge(", expect='silent')
+
+# ------------------------------------------------------------------------------------------------ C08
+UT = 'spatialpandas/utils.py'
+V('C08-reintroduce-D5', 'C08', BA, "        if total_bounds is None:\n            total_bounds = self.total_bounds\n\n        # Work on a copy so that any sequence type is accepted and the caller's\n        # object is left unmodified\n        total_bounds = list(total_bounds)\n", "        if total_bounds is None:\n            total_bounds = list(self.total_bounds)\n", rule='C08.a')
+V('C08-asarray-view', 'C08', BA, "        total_bounds = list(total_bounds)\n", "        total_bounds = np.asarray(total_bounds, dtype=np.float64)\n", rule='C08.a')
+V('C08-normalise-by-own-min', 'C08', RT, "    dim_mids = [(bounds[:, d] + bounds[:, d + n]) / 2.0 for d in range(n)]", "    dim_mids = [(bounds[:, d] + bounds[:, d + n]) / 2.0 - bounds[:, d].min() for d in range(n)]", rule='C08.b')
+V('C08-mid-wrong-dim', 'C08', RT, "    dim_mids = [(bounds[:, d] + bounds[:, d + n]) / 2.0 for d in range(n)]", "    dim_mids = [(bounds[:, d] + bounds[:, n]) / 2.0 for d in range(n)]", rule='C08.c')
+V('C08-range-wrong-dim', 'C08', RT, "    dim_ranges = [(total_bounds[d], total_bounds[d + n]) for d in range(n)]", "    dim_ranges = [(total_bounds[d], total_bounds[n]) for d in range(n)]", rule='C08.c')
+V('C08-scale-cross-dim', 'C08', RT, "        coords[:, d] = _data2coord(dim_mids[d], dim_ranges[d], side_length)", "        coords[:, d] = _data2coord(dim_mids[d], dim_ranges[0], side_length)", rule='C08.c')
+V('C08-widen-isclose', 'C08', RT, "        if dim_ranges[d][0] == dim_ranges[d][1]:", "        if np.isclose(dim_ranges[d][0], dim_ranges[d][1]):", rule='C08.c')
+V('C08-widen-wrong-axis', 'C08', BA, "        if total_bounds[1] == total_bounds[3]:\n            total_bounds[3] += 1.0", "        if total_bounds[1] == total_bounds[2]:\n            total_bounds[3] += 1.0", rule='C08.c')
+V('C08-no-upper-clip', 'C08', UT, "    res[res > n - 1] = n - 1\n", "", rule='C08.d')
+V('C08-no-lower-clip', 'C08', UT, "    res[res < 0] = 0\n", "", rule='C08.d')
+V('C08-int32', 'C08', UT, ".astype(np.int64)", ".astype(np.int32)", rule='C08.d')
+V('C08-geoseries-drops-total-bounds', 'C08', 'spatialpandas/geoseries.py', "            self.array.hilbert_distance(total_bounds=total_bounds, p=p),", "            self.array.hilbert_distance(p=p),", rule='C08.e')
+V('C08-silent-tuple-copy', 'C08', BA, "        total_bounds = list(total_bounds)\n", "        total_bounds = [float(b) for b in total_bounds]\n", expect='silent')
+
+# ------------------------------------------------------------------------------------------------ C09
+V('C09-per-partition-total-bounds', 'C09', D, "            lambda s: s.hilbert_distance(total_bounds=total_bounds, p=p))", "            lambda s: s.hilbert_distance(p=p))", rule='C09.a')
+V('C09-total-bounds-inside-lambda', 'C09', D, "            lambda s: s.hilbert_distance(total_bounds=total_bounds, p=p))", "            lambda s: s.hilbert_distance(total_bounds=s.total_bounds, p=p))", rule='C09.a')
+V('C09-p-dropped', 'C09', D, "            lambda s: s.hilbert_distance(total_bounds=total_bounds, p=p))", "            lambda s: s.hilbert_distance(total_bounds=total_bounds))", rule='C09.a')
+V('C09-first-geometry', ['C09', 'C20'], D, "        geometry = self.geometry\n        # Compute distance", "        geometry = self[self.columns[0]]\n        # Compute distance", rule=None, rules={'C09': 'C09.a', 'C20': 'C20.b'})
+V('C09-no-repartition-guard', 'C09', D, "        if ddf.npartitions != npartitions:\n            # set_index doesn't change the number of partitions if the partitions\n            # happen to be already sorted\n            ddf = ddf.repartition(npartitions=npartitions)\n", "", rule='C09.b')
+V('C09-npartitions-not-passed', 'C09', D, "ddf.set_index('hilbert_distance', npartitions=npartitions, shuffle_method=shuffle)", "ddf.set_index('hilbert_distance', shuffle_method=shuffle)", rule='C09.b')
+V('C09-wrong-p', 'C09', D, "        ddf = self._with_hilbert_distance_column(p)\n\n        # Set index to distance.", "        ddf = self._with_hilbert_distance_column(15)\n\n        # Set index to distance.", rule='C09.b')
+V('C09-default-always', 'C09', D, "        if npartitions is None:\n            # Make partitions of ~8 million rows with a minimum of 8\n            # partitions\n            nrows = len(self)\n            npartitions = max(nrows // 2 ** 23, 8)\n        return npartitions", "        nrows = len(self)\n        return max(nrows // 2 ** 23, npartitions or 8)", rule='C09.c')
+V('C09-silent-rename', 'C09', D, "        total_bounds = geometry.total_bounds\n        ddf = self.assign(hilbert_distance=geometry.map_partitions(\n            lambda s: s.hilbert_distance(total_bounds=total_bounds, p=p))", "        extent = geometry.total_bounds\n        ddf = self.assign(hilbert_distance=geometry.map_partitions(\n            lambda part: part.hilbert_distance(total_bounds=extent, p=p))", expect='silent')
+V('C09-int32-distances', 'C09', D, "            lambda s: s.hilbert_distance(total_bounds=total_bounds, p=p))", "            lambda s: s.hilbert_distance(total_bounds=total_bounds, p=p).astype(np.int32))", rule='C09.a')
+V('C09-silent-int64-cast', 'C09', D, "            lambda s: s.hilbert_distance(total_bounds=total_bounds, p=p))", "            lambda s: s.hilbert_distance(total_bounds=total_bounds, p=p).astype(np.int64))", expect='silent')
+V('C09-getitem-propagates-on-rows', 'C09', D, "        elif isinstance(key, (np.ndarray, list)):", "        elif isinstance(result, DaskGeoDataFrame):", rule='C09.a')
